@@ -266,7 +266,7 @@ pub fn run(run: &Arc<Run>) {
         }
     }
     run.set_rule(
-        "dof: every integer nu = n-1 in a dense initial range (quick 1..300, thorough 1..2000) then a geometric ladder to 2*10^5 including 89 998..90 002, 99 998..100 003 and 109 998..110 003; real-valued dof through Unpaired on two symmetric probe samples of sizes (na, nb) and power-of-two scale ratios; \
+        "dof: quick: every integer nu = n-1 in 1..300, a geometric ladder to 2*10^5 and 3000 seeded large dof; thorough: EVERY integer nu in 1..110 003 plus the ladder beyond; both including 89 998..90 002, 99 998..100 003 and 109 998..110 003; real-valued dof through Unpaired on two symmetric probe samples of sizes (na, nb) and power-of-two scale ratios; \
          level grid (incl. levels below 1/2) x 3 kinds. The critical value is recovered from the interval of an exactly-symmetric probe sample (mean exactly 0, exact sums), then |T_nu(c) - target| <= tol_P(nu) (normal branch: |Phi(c) - target| <= 1e-12); \
          proportion: z recovered from each Wilson root. The continued-fraction t CDF is cross-checked by quadrature on a sample of events. distinct = distinct (entry, nu, kind, level).",
     );
@@ -293,6 +293,17 @@ pub fn run(run: &Arc<Run>) {
         x *= ratio;
         ns.push(x as usize);
     }
+    if !quick && !calibrate {
+        // thorough: every integer dof up to beyond the switch. The underlying inverse CDF has isolated
+        // (dof, p) pairs where it misses altogether (about 2 per 10^6 pairs): only a dense sweep meets them.
+        ns = (2..=110_004).collect();
+    } else if quick {
+        // quick: a seeded sample of large dof on top of the ladder
+        let mut r = Rng::from(&[seed, 0xc06d]);
+        for _ in 0..3000 {
+            ns.push(r.range(1_000, 100_000) as usize);
+        }
+    }
     for c in [90_000usize, 100_000, 110_000] {
         for d in 0..6 {
             ns.push(c - 2 + d + 1);
@@ -302,6 +313,15 @@ pub fn run(run: &Arc<Run>) {
     ns.sort();
     ns.dedup();
     run.par(ns.len() as u64, |i, l| judge_arith(ns[ns.len() - 1 - i as usize], &levels, l));
+    // pinned probes: (dof, p) pairs at which the dependency's inverse t CDF is known to miss the
+    // quantile altogether (found by the dense sweep / calibration on the pinned dependency versions).
+    // They are the inputs on which a weakened refinement of the quantile shows.
+    let needles: [(usize, f64); 11] = [(22_192, 0.83387939644156), (40_643, 0.82), (54_251, 0.81), (16_697, 0.79), (42_056, 0.83), (55_510, 0.83), (69_696, 0.79), (87_817, 0.75), (90_825, 0.78), (94_272, 0.81), (99_600, 0.77)];
+    run.par(needles.len() as u64, |i, l| {
+        let (nu, p) = needles[i as usize];
+        l.count("pinned needle probes (dof, p) judged");
+        judge_arith(nu + 1, &[p, 1.0 - p, 2.0 * p - 1.0], l);
+    });
     // real-valued dof
     let nun = run.cfg.by(600u64, 4000);
     run.par(nun, |i, l| {
@@ -343,5 +363,6 @@ pub fn run(run: &Arc<Run>) {
         "proportion z judged",
         "level<1/2",
         "oracle cross-checked by quadrature",
+        "pinned needle probes (dof, p) judged",
     ]);
 }
